@@ -35,6 +35,8 @@ def gen_cfg(rnd):
         "steps": rnd.choice([15, 40, 80]),
         "names": rnd.choice(["str", "int"]),
         "stream_seed": rnd.randrange(2 ** 31),
+        "model": rnd.choice(["linear", "linear", "river-labels"]),
+        "tree_seed": rnd.choice([0, 0, 1, 42, rnd.randrange(1000)]),
     }
 
 
@@ -83,6 +85,19 @@ def scenario(cfg, seed):
 
     def loss(y, p):
         return (y - p["output"]) ** 2
+    if cfg.get("model") == "river-labels":
+        from ixai.utils.wrappers import RiverWrapper
+
+        def predict_label(x):          # string labels whose set grows with the stream (river classifier style)
+            s_ = sum(wi * x[n] for wi, n in zip(w, names))
+            return "neg" if s_ < -1 else ("mid" if s_ < 1 else ("pos" if s_ < 3 else "top"))
+        rw = RiverWrapper(predict_label)
+
+        def model(x):      # noqa: F811
+            return rw(x)
+
+        def loss(y, p):    # noqa: F811
+            return sum((1.0 if (lab == "pos") == (y > 0) else 0.0) * v + 0.1 * len(p) for lab, v in p.items())
     kind, st_kind, imp_kind = cfg["explainer"], cfg["storage"], cfg["imputer"]
     if kind == "interval":
         st_kind = "interval"
@@ -103,7 +118,7 @@ def scenario(cfg, seed):
         st = BatchStorage(store_targets=True)
     else:
         st = TreeStorage(cat_feature_names=names[:1], num_feature_names=names[1:], max_depth=3, leaf_reservoir_length=4,
-                         grace_period=10, seed=cfg["stream_seed"] % 1000)
+                         grace_period=10, seed=cfg.get("tree_seed", 7))
     if imp_kind in ("joint", "product"):
         imp = MarginalImputer(model, imp_kind, st)
     elif imp_kind == "default-arg":
@@ -133,6 +148,8 @@ def scenario(cfg, seed):
             r = e.explain_one(x, y)
         h = hashlib.sha256()
         h.update(repr(sorted((repr(k), fhex(v)) for k, v in r.items())).encode())
+        if hasattr(e, "marginal_prediction"):
+            h.update(repr(sorted((repr(k), fhex(v)) for k, v in e.marginal_prediction.items())).encode())
         if hasattr(e, "variances"):
             h.update(repr(sorted((repr(k), fhex(v)) for k, v in e.variances.items())).encode())
         if st_kind == "tree":
@@ -161,7 +178,7 @@ def worker():
 
 
 def main(run):
-    run.rule = ("scenario = seed random and numpy.random -> construct storage (TreeStorage with explicit seed), imputer (Marginal joint/"
+    run.rule = ("scenario = seed random and numpy.random -> construct storage (TreeStorage with explicit seed, incl. seed 0), model (plain function or RiverWrapper over string labels), imputer (Marginal joint/"
                 "product, library default, TreeImputer both modes), explainer (IncrementalSage/PFI, BatchSage, IntervalSage) -> run a "
                 "float stream, hashing bit patterns (float.hex) of importance values, variances and storage / reservoir contents after "
                 "EVERY call; compared bit-for-bit: (a) two replays in one process, (b) a replay after a junk preamble (other library "
